@@ -1159,8 +1159,8 @@ theorem Derived_Type_Stmt_glued_witness  :
 theorem Generic_Binding_exact (o : Oracle Node) (ho : OracleTok o) (s : Str)
     (items : List (Item Node)) (hm : (planGenericBinding s).bind (runSlots o) = .ok items) :
     ∃ t, tostrGenericBinding o items = .ok t ∧
-      (∃ a p b c d : Str, toks s = a ++ (toks p ++ (b ++ (toks c ++ d))) ∧ toks t = a ++ (b ++ d) ∧
-        c.length ≤ 1 ∧ (GbPrefixOK s = true → toks p = []) ∧ (GbArrowOK s = true → toks c = [])) ∧
+      (∃ a p b : Str, toks s = a ++ (toks p ++ b) ∧ toks t = a ++ b ∧
+        (GbPrefixOK s = true → toks p = [])) ∧
       ((∀ i ∈ items, net (i.text o) = 0) → net t = 0) :=
   _root_.Fp.Header.Generic_Binding_exact o ho s items hm
 
@@ -1171,21 +1171,18 @@ theorem Generic_Binding_tostr_match_tokens_partial (o : Oracle Node) (ho : Oracl
       ((∀ i ∈ items, net (i.text o) = 0) → net t = 0) :=
   _root_.Fp.Header.Generic_Binding_tostr_match_tokens_partial o ho s items hm hok
 
-theorem Generic_Binding_exact_arrow (o : Oracle Node) (ho : OracleTok o) (s : Str)
-    (items : List (Item Node)) (hm : (planGenericBinding s).bind (runSlots o) = .ok items)
-    (hpre : GbPrefixOK s = true) :
-    ∃ t, tostrGenericBinding o items = .ok t ∧
-      ∃ a c b, c.length ≤ 1 ∧ toks s = a ++ (toks c ++ b) ∧ toks t = a ++ b :=
-  _root_.Fp.Header.Generic_Binding_exact_arrow o ho s items hm hpre
-
-theorem Generic_Binding_drops_char  :
+theorem Generic_Binding_arrow_regression  :
     (planGenericBinding "generic :: a =>xb".toList).bind (runSlots t_echoH)
+      = .ok [.none, .node "a".toList, .node "xb".toList] ∧
+    tostrGenericBinding t_echoH [.none, .node "a".toList, .node "xb".toList]
+      = .ok "GENERIC :: a => xb".toList ∧
+    toks "GENERIC :: a => xb".toList = toks "generic :: a =>xb".toList ∧
+    (planGenericBinding "generic :: a=>b".toList).bind (runSlots t_echoH)
       = .ok [.none, .node "a".toList, .node "b".toList] ∧
-    tostrGenericBinding t_echoH [.none, .node "a".toList, .node "b".toList]
-      = .ok "GENERIC :: a => b".toList ∧
-    toks "GENERIC :: a => b".toList ≠ toks "generic :: a =>xb".toList ∧
-    GbArrowOK "generic :: a =>xb".toList = false :=
-  _root_.Fp.Header.Generic_Binding_drops_char 
+    planGenericBinding "generic::a=>b".toList
+      = .ok [.none, .child C.Generic_Spec "a".toList, .child C.Binding_Name_List "b".toList] ∧
+    GbOK "generic :: a =>xb".toList = true ∧ GbOK "generic::a=>b".toList = true :=
+  _root_.Fp.Header.Generic_Binding_arrow_regression 
 
 theorem Generic_Binding_drops_prefix  :
     (planGenericBinding "generic xyz :: a => b".toList).bind (runSlots t_echoH)
@@ -1193,13 +1190,10 @@ theorem Generic_Binding_drops_prefix  :
     tostrGenericBinding t_echoH [.none, .node "a".toList, .node "b".toList]
       = .ok "GENERIC :: a => b".toList ∧
     toks "GENERIC :: a => b".toList ≠ toks "generic xyz :: a => b".toList ∧
-    GbPrefixOK "generic xyz :: a => b".toList = false :=
+    GbPrefixOK "generic xyz :: a => b".toList = false ∧
+    (planGenericBinding "genericxyz :: a => b".toList).bind (runSlots t_echoH)
+      = .ok [.none, .node "a".toList, .node "b".toList] :=
   _root_.Fp.Header.Generic_Binding_drops_prefix 
-
-theorem Generic_Binding_tight_witness  :
-    planGenericBinding "generic::a=>b".toList
-      = .ok [.none, .child C.Generic_Spec "a".toList, .child C.Binding_Name_List []] :=
-  _root_.Fp.Header.Generic_Binding_tight_witness 
 
 theorem Specific_Binding_tostr_match_tokens (o : Oracle Node) (ho : OracleTok o) (s : Str)
     (items : List (Item Node))
@@ -1735,10 +1729,8 @@ end Fp.Header.Props
 #print axioms Fp.Header.Props.Derived_Type_Stmt_glued_witness
 #print axioms Fp.Header.Props.Generic_Binding_exact
 #print axioms Fp.Header.Props.Generic_Binding_tostr_match_tokens_partial
-#print axioms Fp.Header.Props.Generic_Binding_exact_arrow
-#print axioms Fp.Header.Props.Generic_Binding_drops_char
+#print axioms Fp.Header.Props.Generic_Binding_arrow_regression
 #print axioms Fp.Header.Props.Generic_Binding_drops_prefix
-#print axioms Fp.Header.Props.Generic_Binding_tight_witness
 #print axioms Fp.Header.Props.Specific_Binding_tostr_match_tokens
 #print axioms Fp.Header.Props.wordA_tostr_match_tokens
 #print axioms Fp.Header.Props.Final_Binding_tostr_match_tokens
